@@ -48,7 +48,7 @@ RULE = ("sequence of 1-5 command lines, each a pipeline of 1-4 stages (21 stage 
         "displaced) + SIGINT probe; non-trivial = some pipeline has >= 2 stages or a failing/not-found/permission-denied/raising "
         "stage or a redirect error; distinct = hash of (config, command sources, repetitions)")
 
-HANG_S = 30.0
+HANG_S = 20.0
 GRACE_S = 2.0
 
 # id -> (kind label, source text, is a callable alias)
@@ -419,6 +419,8 @@ def _f1_resource_problem(p, blocked_alias, redirected):
 
 def classify(case, level, group, probs, hang_cmd=None, also=()):
     if level == "hang":
+        if hang_cmd is not None and _threaded(case) and case["cfg"].get("raise", True) and "asub" in hang_cmd["stages"]:
+            return "C09-F7"
         if hang_cmd is not None and shape_f6_cmd(hang_cmd, case):
             return "C09-F6"
         return None
@@ -888,6 +890,12 @@ def _evaluate(case, st, family):
             return
         if case["reps"] > 3:
             case = dict(case, reps=3)
+    if "C09-F7" in open_ids and _threaded(case) and case["cfg"].get("raise", True) and case["reps"] > 3 and \
+            any("asub" in c["stages"] for c in case["cmds"]):
+        st.excluded_known["C09-F7"] += 1
+        case = dict(case, reps=3)
+    if case["reps"] > 3 and (("C09-F1" in open_ids and shape_f1(case)) or ("C09-F4" in open_ids and shape_f4(case))):
+        case = dict(case, reps=3 if shape_f1(case) and not shape_f4(case) else 1)    # F4: every repetition stalls 3 s per stage
     nontrivial, labels = case_labels(case)
     fails = check_case(case, tolerate=open_ids, stats=st)
     st.case(case_key(case), nontrivial, [family] + labels, sample={"cfg": case["cfg"], "src": [c["src"] for c in case["cmds"]],
@@ -1002,6 +1010,19 @@ def worker_one(arg):
     return {"failures": [f.to_json() for f in fails]}
 
 
+def worker_any(arg):
+    """One pool for everything, so that the slow replays (a hang costs the full bound) overlap with the campaign."""
+    kind, payload = arg
+    t0 = time.time()
+    if kind == "replay":
+        res = worker_one(payload)
+        res["seconds"] = time.time() - t0
+        return res
+    st = worker_grid(payload) if kind == "grid" else worker_random(payload)
+    st.hist["worker-seconds:" + kind] += int(time.time() - t0)
+    return st
+
+
 # ----------------------------------------------------------------------------------------
 
 
@@ -1026,11 +1047,34 @@ def _normalise(case):
     return case
 
 
+def _committed_replays():
+    import glob
+
+    out = []
+    for path in sorted(glob.glob(os.path.join(common.REPLAY_DIR, PROP, "*.json"))):
+        if os.path.basename(path).startswith("violation-"):
+            continue
+        with open(path) as f:
+            body = json.load(f)
+        out.append(_normalise(body.get("case", body)))
+    return out
+
+
 def main(run):
     helpers.ensure()
+    nw = 8 if run.tier == "quick" else 16
+    per = run.n(110, 3200)
+    replays = _committed_replays()
+    tasks = [("replay", (c, run.scratch)) for c in replays]
+    tasks += [("grid", (i, nw, run.scratch, run.tier)) for i in range(nw)]
+    tasks += [("random", (common.worker_seed(run.seed, w), per, run.scratch, run.tier, False)) for w in range(nw)]
+    results = common.pool_map(run, __name__, "worker_any", tasks, procs=nw)
+    stash = {json.dumps(c, sort_keys=True): [Failure.from_json(d) for d in r["failures"]] for c, r in zip(replays, results)}
 
     def replay_fn(case):
-        fails = _replay_in_worker(run, _normalise(case))
+        fails = stash.get(json.dumps(_normalise(case), sort_keys=True))
+        if fails is None:
+            fails = _replay_in_worker(run, _normalise(case))
         if not fails:
             return None
         # the committed replay of a finding must fail *as that finding*; anything else it shows is reported too
@@ -1041,11 +1085,6 @@ def main(run):
         return known[0] if known else fails[0]
 
     common.replay_tier(run, replay_fn)
-    nw = 8 if run.tier == "quick" else 16
-    common.pool_map(run, __name__, "worker_grid", [(i, nw, run.scratch, run.tier) for i in range(nw)], procs=nw)
-    per = run.n(110, 3200)
-    common.pool_map(run, __name__, "worker_random",
-                    [(common.worker_seed(run.seed, w), per, run.scratch, run.tier, False) for w in range(nw)], procs=nw)
     if run.tier == "thorough":
         try:
             common.pool_map(run, __name__, "worker_random",
@@ -1061,11 +1100,12 @@ def main(run):
         "strict": "after one neutral alias command displaced XSH.lastcmd and the check's own variables were dropped"}
     run.assumptions += [
         "helper threads and children get a grace period of %.0f s after the command returns before they count as left behind" % GRACE_S,
-        "a hang is a command that does not return within %.0f s (typical cost 5-50 ms)" % HANG_S,
+        "a hang is a command that does not return within %.0f s (typical cost 5-50 ms; xonsh's own internal waits add up to 9 s)" % HANG_S,
         "!(...) objects are always ended (.end() / .rtn); an un-ended !(...) is a still-running pipeline, outside the property",
         "background (&) pipelines are not generated (the property speaks of foreground children)",
         "the environment is compared by effective value; 'unset' becoming 'set to its default' after env.swap() is C11-F1, recorded there",
         "shell stdin is /dev/null, stdout/stderr go to /dev/null (quick) or to a harness pty (thorough, pty workers)",
+        "a threading.enumerate() entry without an OS thread behind it (CPython's immortal _DummyThread) is not a running thread",
     ]
 
 
